@@ -79,7 +79,7 @@ def do_import(wt, mdir, name):
     return 0 if ok else 1
 
 
-def do_eval(name, tier, props, scratch=False):
+def do_eval(name, tier, props, scratch=False, only=None):
     """scratch=False: apply to /repo itself (git apply, run, git checkout -- .).
     scratch=True: apply in a throw-away worktree of /repo's HEAD and point the checks at it
     (VERIF_REPO); evidence/replays of that run go to a temp dir so that /verif/evidence keeps
@@ -111,11 +111,11 @@ def do_eval(name, tier, props, scratch=False):
     try:
         for p in props:
             t0 = time.time()
-            rc, out = sh(env_prefix + "./check %s --tier %s" % (p, tier), cwd=V, timeout=7200)
+            rc, out = sh(env_prefix + "./check %s --tier %s%s" % (p, tier, (" --only '%s'" % only) if only else ""), cwd=V, timeout=7200)
             viol = [l for l in out.splitlines() if l.startswith("VIOLATION")]
             det = [l.strip() for l in out.splitlines() if l.strip().startswith("query=")]
             res[p] = {"applied_in": "scratch worktree of /repo HEAD" if scratch else "/repo", "exit": rc, "violations": viol, "details": det[:6], "wall_s": round(time.time() - t0, 1),
-                      "summary": [l for l in out.splitlines() if l.startswith("SUMMARY")]}
+                      "summary": [l for l in out.splitlines() if l.startswith("SUMMARY")], **({"only": only} if only else {})}
             print("  %s %s: exit %d, %d VIOLATION line(s) %s" % (name, p, rc, len(viol), det[:1]))
     finally:
         sh("git checkout -- .", cwd=REPO)
@@ -140,5 +140,6 @@ if __name__ == "__main__":
             tier = a[a.index("--tier") + 1]
         if "--props" in a:
             props = a[a.index("--props") + 1].split(",")
-        sys.exit(do_eval(a[1], tier, props, "--scratch" in a))
+        only = a[a.index("--only") + 1] if "--only" in a else None
+        sys.exit(do_eval(a[1], tier, props, "--scratch" in a, only))
     print(__doc__)
